@@ -434,6 +434,15 @@ func (c *FnCFG) locate(n ast.Node) (int, int, bool) {
 		}
 	}
 	if best < 0 {
+		// compound statement (loop, if, switch): use the first CFG node inside it
+		var first token.Pos = -1
+		for i, cn := range c.nodes {
+			if n.Pos() <= cn.n.Pos() && cn.n.End() <= n.End() && (first < 0 || cn.n.Pos() < first) {
+				best, first = i, cn.n.Pos()
+			}
+		}
+	}
+	if best < 0 {
 		return 0, 0, false
 	}
 	return c.nodes[best].blk, c.nodes[best].idx, true
@@ -446,6 +455,9 @@ func (c *FnCFG) dominates(a, b ast.Node) bool {
 	bb, bi, ok2 := c.locate(b)
 	if !ok1 || !ok2 {
 		return false
+	}
+	if !c.g.Blocks[bb].Live {
+		return true // b is unreachable: vacuously dominated
 	}
 	if ab == bb {
 		if ai != bi {
